@@ -190,8 +190,12 @@ var solvers = []solverSpec{
 }
 
 func runSolver(sp solverSpec, query string, timeoutS int) (answer, out string, secs float64) {
+	return runSolverCtx(context.Background(), sp, query, timeoutS)
+}
+
+func runSolverCtx(parent context.Context, sp solverSpec, query string, timeoutS int) (answer, out string, secs float64) {
 	args := sp.args(timeoutS)
-	ctx, cancel := context.WithTimeout(context.Background(), time.Duration(timeoutS+2)*time.Second)
+	ctx, cancel := context.WithTimeout(parent, time.Duration(timeoutS+2)*time.Second)
 	defer cancel()
 	cmd := exec.CommandContext(ctx, args[0], args[1:]...)
 	cmd.Stdin = strings.NewReader(query)
@@ -247,6 +251,42 @@ func solveAll(obls []*Obligation, opts SolveOpts) {
 	}
 	close(ch)
 	wg.Wait()
+	// An obligation on which every solver ran out of time (no model, no
+	// `unknown`) is tried once more with nothing else running and a longer
+	// limit: a machine under load must not turn a proof into an alarm.
+	for _, o := range obls {
+		if o.Status == "failed" && o.Expect == "unsat" && o.allTimeouts {
+			retryCalm(o, opts)
+		}
+	}
+}
+
+func retryCalm(o *Obligation, opts SolveOpts) {
+	type res struct {
+		name, ans, out string
+		secs           float64
+	}
+	rc := make(chan res, len(solvers))
+	ctx, cancel := context.WithCancel(context.Background())
+	defer cancel()
+	for _, sp := range solvers {
+		sp := sp
+		go func() {
+			a, ot, s := runSolverCtx(ctx, sp, o.Query, 3*opts.SlowT)
+			rc <- res{sp.name, a, ot, s}
+		}()
+	}
+	for range solvers {
+		r := <-rc
+		o.Time += r.secs
+		if r.ans == "unsat" {
+			o.Status = "discharged"
+			o.Solver = r.name
+			o.Answer = r.ans
+			o.Retried = true
+			return
+		}
+	}
 }
 
 func solveOne(o *Obligation, opts SolveOpts) {
@@ -328,6 +368,12 @@ func solveOne(o *Obligation, opts SolveOpts) {
 		return
 	}
 	o.Status = "failed"
+	o.allTimeouts = true
+	for _, a := range answers {
+		if a != "timeout" {
+			o.allTimeouts = false
+		}
+	}
 	// best answer for the report: prefer sat (a model exists)
 	for _, name := range []string{"z3-new", "cvc5", "z3"} {
 		if answers[name] == "sat" {
